@@ -60,6 +60,10 @@ func (s *service) MultiMemberGroupJoin(ctx context.Context, req *protocoltypes.M
 	ctx, _, endSection := tyber.Section(ctx, s.logger, "Joining MultiMember group")
 	defer func() { endSection(err, "") }()
 
+	if req.Group == nil {
+		return nil, errcode.ErrCode_ErrInvalidInput
+	}
+
 	accountGroup := s.getAccountGroup()
 	if accountGroup == nil {
 		return nil, errcode.ErrCode_ErrGroupMissing
